@@ -14,11 +14,18 @@ Definition kdel (k : key) (m : amap) : amap := aremove Nat.eqb k m.
 
 (* The lists carried by Reload / Subscribe are scheduling oracles: the order in which Go's map iteration
    (getCurrent, the snapshot diff) happened to enumerate keys. They carry no information about the store. *)
+(* one event inside a watch response *)
+Inductive bev := BPut (k : key) (v : val) | BDel (k : key).
+Definition bkey (b : bev) : key := match b with BPut k _ => k | BDel k => k end.
+Definition bev_step (m : amap) (b : bev) : amap :=
+  match b with BPut k v => kset k v m | BDel k => kdel k m end.
+
 Inductive ev :=
 | Put (k : key) (v : val) (delivered : bool)
 | Del (k : key) (delivered : bool)
 | Reload (oa od : list key)
-| Subscribe (oc oa od : list key).
+| Subscribe (oc oa od : list key)
+| Batch (items : list bev).   (* several changes committed together: they arrive in ONE watch response, in order *)
 
 (* what a listener is told *)
 Inductive call := CAdd (k : key) (v : val) | CDel (k : key).
@@ -28,6 +35,7 @@ Definition spec_step (m : amap) (e : ev) : amap :=
   match e with
   | Put k v _ => kset k v m
   | Del k _ => kdel k m
+  | Batch items => fold_left bev_step items m
   | _ => m
   end.
 Definition spec_etcd (h : list ev) : amap := fold_left spec_step h [].
@@ -46,6 +54,7 @@ Section Spec.
     | Del k d => (fst st, snd st && (d || negb (under k)))
     | Reload _ _ => (fst st, snd st || fst st)
     | Subscribe _ _ _ => (true, true)
+    | Batch _ => st
     end.
   Definition sync_state (h : list ev) : bool * bool := fold_left sync_step h (false, false).
   Definition synced (h : list ev) : bool := fst (sync_state h) && snd (sync_state h).
@@ -53,7 +62,11 @@ End Spec.
 
 (* the quantifier's proviso: a key carries one value during its life (vf k) *)
 Definition ev_ok (vf : key -> val) (e : ev) : Prop :=
-  match e with Put k v _ => v = vf k | _ => True end.
+  match e with
+  | Put k v _ => v = vf k
+  | Batch items => Forall (fun b => match b with BPut k v => v = vf k | BDel _ => True end) items
+  | _ => True
+  end.
 Definition consistent (vf : key -> val) (h : list ev) : Prop := Forall (ev_ok vf) h.
 
 Definition call_ok (vf : key -> val) (c : call) : Prop :=
